@@ -21,6 +21,21 @@ Layout-dependent quantities are compared only where the property says they
 are invariant: statistics and scores only when the layout holds no deleted
 document; physical lexicon / segment count / removed-field residue only in a
 layout produced by an optimizing commit; group adjacency in every layout.
+
+Families (plan()): the complete operation alphabet up to length 3 (thorough:
+4), longer lists (to 7, where MERGE_SMALL starts to fire) with a bounded
+number of non-add operations; x W3Codec blocklimit {2, 128} x front-end
+{ix.writer(), AsyncWriter, BufferedWriter(limit=2|3, period=None),
+SerialMpWriter(procs=1|2)} on RAM storage.  The real multiprocessing writer
+(ix.writer(procs=2[, multisegment=True]), file storage) runs a fixed set of
+complete histories in a fresh non-daemonic interpreter with a hard timeout
+(mc.history.run_isolated).  Every commit and every observation runs under an
+alarm (StepTimeout) so that a corrupted index cannot hang the check.
+
+Violations are grouped by (kind, detail, front-end); the smallest member of
+each group is shrunk on the real code (drop operations, join commits, weaken
+merge choices, plain writer, default block size) and the signature is
+kind|detail|front-end|shrunk history.
 """
 import itertools
 import json
@@ -673,7 +688,6 @@ def task(t):
     if t["mode"] == "explore":
         for ops in t["oplists"]:
             acc.count("oplists")
-            m = H.model(ops)
             if any(op[0] in ("delete", "update", "group", "rmfield") for op in ops):
                 acc.count("distinct_nontrivial")
             viol = explore(ops, t["config"], acc, check_levels=set([len(ops)]))
@@ -774,7 +788,7 @@ def plan(tier, seed):
         fams.append(("all-ops L<=2 async bl128", conc((1, 2)), cfg("async", 128), 10))
         fams.append(("all-ops L<=3 buffered(limit=2) bl2", small, cfg("buffered", 2, buffer_limit=2), 10))
         fams.append(("all-ops L<=2 buffered(limit=2) bl128", conc((1, 2)), cfg("buffered", 128, buffer_limit=2), 10))
-        fams.append(("<=1 special op L=4 buffered(limit=3) bl2", conc((4,), max_special=1), cfg("buffered", 2, buffer_limit=3), 5))
+        fams.append(("<=1 special op L<=4 buffered(limit=3) bl2", conc((1, 2, 3, 4), max_special=1), cfg("buffered", 2, buffer_limit=3), 8))
         fams.append(("all-ops-without-groups L<=3 serialmp(procs=2) bl2", nogroups(small), cfg("serialmp", 2, procs=2), 10))
         fams.append(("all-ops-without-groups L<=2 serialmp(procs=2) bl128", nogroups(conc((1, 2))), cfg("serialmp", 128, procs=2), 10))
         fams.append(("all-ops-without-groups L<=3 serialmp(procs=1) bl2", nogroups(small), cfg("serialmp", 2, procs=1), 10))
@@ -783,11 +797,13 @@ def plan(tier, seed):
         for bl in (2, 128):
             fams.append(("all-ops L<=3 plain bl%d" % bl, small, cfg("plain", bl), 10))
             fams.append(("all-ops L=4 plain bl%d" % bl, big, cfg("plain", bl), 5))
-            fams.append(("<=2 special ops L=5 plain bl%d" % bl, conc((5,), max_special=2), cfg("plain", bl), 3))
+        fams.append(("<=2 special ops L=5 plain bl2", conc((5,), max_special=2), cfg("plain", 2), 3))
+        fams.append(("<=1 special op L=5 plain bl128", conc((5,), max_special=1), cfg("plain", 128), 3))
         fams.append(("<=2 special ops (oldest/newest key) L=6 plain bl2", conc((6,), max_special=2, targets="ends"), cfg("plain", 2), 1))
         fams.append(("<=1 special op L=6 plain bl128", conc((6,), max_special=1, targets="ends"), cfg("plain", 128), 1))
         fams.append(("<=1 special op (oldest/newest key) L=7 plain bl2", conc((7,), max_special=1, targets="ends"), cfg("plain", 2), 1))
-        fams.append(("all-ops L<=4 async bl2", small + big, cfg("async", 2), 5))
+        fams.append(("all-ops L<=3 async bl2", small, cfg("async", 2), 10))
+        fams.append(("<=2 special ops L=4 async bl2", conc((4,), max_special=2), cfg("async", 2), 5))
         fams.append(("all-ops L<=3 async bl128", small, cfg("async", 128), 10))
         for bl in (2, 128):
             fams.append(("all-ops L<=4 buffered(limit=2) bl%d" % bl, small + big, cfg("buffered", bl, buffer_limit=2), 5))
